@@ -765,4 +765,144 @@ theorem apply_no_new_objects {v : Variant} {G : Id → List Id} {roots : List Id
     · exact .inl h
     · exact .inr (.inl h)
 
+/-! ### maintenance from any cache state -/
+
+theorem refresh_any (disk : List Pack) (p : Pack) (now : Nat) (x : Id) :
+    (∃ q ∈ disk.map (fun q => if q = p then { q with mtime := now } else q), x ∈ q.ids) ↔ (∃ q ∈ disk, x ∈ q.ids) := by
+  simp only [List.mem_map]
+  constructor
+  · rintro ⟨q, ⟨q0, hq0, rfl⟩, hx⟩
+    refine ⟨q0, hq0, ?_⟩
+    split at hx
+    · exact hx
+    · exact hx
+  · rintro ⟨q, hq, hx⟩
+    refine ⟨_, ⟨q, hq, rfl⟩, ?_⟩
+    split
+    · exact hx
+    · exact hx
+
+/-- whatever the view: if the "already packed?" loop of the real code returns, the packs on disk afterwards hold exactly
+the old packed objects plus the objects to be packed -/
+theorem installPackV_any (v : Variant) (disk : List Pack) (objs : List Id) (now : Nat) :
+    ∀ (view : List Pack) (pk : List Pack), installPackV v false disk objs now view = some pk →
+      ∀ x, (∃ p ∈ pk, x ∈ p.ids) ↔ (∃ p ∈ disk, x ∈ p.ids) ∨ x ∈ objs := by
+  intro view
+  induction view with
+  | nil =>
+    intro pk h x
+    simp only [installPackV, Option.some.injEq] at h
+    subst h
+    simp only [List.mem_append, List.mem_singleton]
+    constructor
+    · rintro ⟨p, hp | rfl, hx⟩
+      · exact .inl ⟨p, hp, hx⟩
+      · exact .inr hx
+    · rintro (⟨p, hp, hx⟩ | h)
+      · exact ⟨p, .inl hp, hx⟩
+      · exact ⟨_, .inr rfl, h⟩
+  | cons p rest ih =>
+    intro pk h x
+    unfold installPackV at h
+    split at h
+    · rename_i hdisk
+      have hpd : p ∈ disk := by simpa using hdisk
+      split at h
+      · rename_i hs
+        have hiff := sameSet_mem (a := p.ids) (b := objs) hs x
+        simp only [Option.some.injEq] at h
+        subst h
+        have key : (∃ q ∈ disk, x ∈ q.ids) ↔ (∃ q ∈ disk, x ∈ q.ids) ∨ x ∈ objs := by
+          constructor
+          · exact fun h => .inl h
+          · rintro (h | h)
+            · exact h
+            · exact ⟨p, hpd, hiff.mpr h⟩
+        split
+        · rw [refresh_any]; exact key
+        · exact key
+      · exact ih pk h x
+    · simp at h
+
+theorem packLooseV_has (v : Variant) (view : List Pack) (s : Store) (now : Nat) (x : Id) :
+    (packLooseV v false view s now).1.has x = true ↔ s.has x = true := by
+  unfold packLooseV
+  split
+  · rfl
+  · split
+    · rfl
+    · rename_i pk hpk
+      rw [has_mk, has_iff]
+      simp only [List.map_nil, List.not_mem_nil, false_or]
+      rw [installPackV_any v s.packs _ now view pk hpk x, mem_dedup]
+      constructor
+      · rintro ((h | h) | h)
+        · exact .inl h
+        · exact .inr (.inl h)
+        · exact .inr (.inr h)
+      · rintro (h | h | h)
+        · exact .inl (.inl h)
+        · exact .inl (.inr h)
+        · exact .inr h
+
+theorem repackV_has (v : Variant) (view : List Pack) (s : Store) (now : Nat) (x : Id) :
+    (repackV v view s now).1.has x = true ↔ s.has x = true := by
+  unfold repackV
+  split
+  · rfl
+  · simp only
+    rw [repack_has, has_iff]
+    simp only [List.not_mem_nil, not_false_eq_true, and_true]
+    constructor
+    · rintro (h | h | h)
+      · exact .inr (.inr h)
+      · exact .inl h
+      · exact .inr (.inl h)
+    · rintro (h | h | h)
+      · exact .inr (.inl h)
+      · exact .inr (.inr h)
+      · exact .inl h
+
+/-- 7. one maintenance operation from a handle with ANY view of the packs (stale entries, missing entries, any order)
+never loses a reachable object — whether it returns or raises -/
+theorem applyV_preserves_reachable {v : Variant} {G : Id → List Id} {roots : List Id} {fuel : Nat} {view : List Pack}
+    {op : Op} {s : Store} {r : Store × Bool} (h : applyV v G roots fuel view op s = some r) {x : Id}
+    (hr : Reach s G roots x) (hx : s.has x = true) : r.1.has x = true := by
+  cases op with
+  | packLoose now =>
+    simp only [applyV, Option.some.injEq] at h
+    subst h
+    exact (packLooseV_has v view s now x).mpr hx
+  | repack now =>
+    simp only [applyV, Option.some.injEq] at h
+    subst h
+    exact (repackV_has v view s now x).mpr hx
+  | prune grace now =>
+    simp only [applyV, Option.map_eq_some_iff] at h
+    obtain ⟨s', hs', rfl⟩ := h
+    exact apply_preserves_reachable hs' hr hx
+  | gc prune grace now =>
+    simp only [applyV, Option.map_eq_some_iff] at h
+    obtain ⟨s', hs', rfl⟩ := h
+    exact apply_preserves_reachable hs' hr hx
+  | noop =>
+    simp only [applyV, Option.map_eq_some_iff] at h
+    obtain ⟨s', hs', rfl⟩ := h
+    exact apply_preserves_reachable hs' hr hx
+
+theorem applyAllV_preserves_reachable {v : Variant} {G : Id → List Id} {roots : List Id} {fuel : Nat}
+    {ops : List (List Pack × Op)} {s s' : Store} (h : applyAllV v G roots fuel ops s = some s') {x : Id}
+    (hr : Reach s G roots x) (hx : s.has x = true) : s'.has x = true := by
+  induction ops generalizing s with
+  | nil =>
+    simp only [applyAllV, Option.some.injEq] at h
+    subst h
+    exact hx
+  | cons vo ops ih =>
+    obtain ⟨view, op⟩ := vo
+    simp only [applyAllV, Option.bind_eq_some_iff] at h
+    obtain ⟨r, h1, h2⟩ := h
+    exact ih h2 (reach_mono (fun y hy hhy => applyV_preserves_reachable h1 hy hhy) hr)
+      (applyV_preserves_reachable h1 hr hx)
+
 end Dulwich.GC
